@@ -11,11 +11,13 @@ package services
 import (
 	"context"
 
+	"github.com/go-logr/logr"
 	"sigs.k8s.io/controller-runtime/pkg/client"
 
 	"github.com/jcmoraisjr/haproxy-ingress/pkg/acme"
 	"github.com/jcmoraisjr/haproxy-ingress/pkg/controller/config"
 	convtypes "github.com/jcmoraisjr/haproxy-ingress/pkg/converters/types"
+	"github.com/jcmoraisjr/haproxy-ingress/pkg/haproxy"
 )
 
 // VerifCache is the method set of the real cache facade.
@@ -35,4 +37,23 @@ func VerifNewCache(ctx context.Context, cli client.Client, cfg *config.Config, t
 	}
 	cache := createCacheFacade(ctx, cli, cfg, tracker, sslCerts, dynconfig, func(client.Object) {})
 	return cache, fakeCrt, fakeCA, nil
+}
+
+// VerifNewServices builds a Services instance around an already created cache
+// facade, converter options and haproxy instance, the way setup() assigns them,
+// without manager, leader election (never the leader), status updater or acme.
+// ReconcileIngress of the result is the real one.
+func VerifNewServices(ctx context.Context, cli client.Client, cfg *config.Config, cache VerifCache, converterOpt *convtypes.ConverterOptions, instance haproxy.Instance) *Services {
+	log := logr.FromContextOrDiscard(ctx).WithName("services")
+	return &Services{
+		Client:       cli,
+		Config:       cfg,
+		log:          log,
+		cache:        cache.(*c),
+		converterOpt: converterOpt,
+		instance:     instance,
+		metrics:      createMetrics(cfg.BucketsResponseTime),
+		svcleader:    &svcLeader{ctx: ctx, log: log},
+		svcstatusing: initSvcStatusIng(ctx, cfg, cli, cache.(*c), func(client.Object) {}),
+	}
 }
